@@ -2,6 +2,7 @@ package chk
 
 import (
 	"fmt"
+	"os"
 	"strconv"
 	"go/constant"
 	"go/token"
@@ -25,6 +26,7 @@ type Lit struct {
 	IsInt   bool
 	N       int64
 	Cond    ssa.Value
+	PS      *pathState // the path state when the condition was evaluated (not mutated afterwards)
 }
 
 func (l Lit) String() string {
@@ -105,11 +107,26 @@ var swapOp = map[token.Token]token.Token{
 
 // Termer names SSA values. The default names parameters, fields, globals, call results, len().
 type Termer struct {
+	depth  int
 	P      *Program
 	Custom func(v ssa.Value, ps *pathState) (string, bool)
 }
 
 func (t *Termer) Term(v ssa.Value, ps *pathState) string {
+	t.depth++
+	defer func() { t.depth-- }()
+	if t.depth > 200 {
+		if os.Getenv("SQLCHECK_DEBUG") != "" {
+			var idx []int
+			if ps != nil {
+				for _, b := range ps.Path {
+					idx = append(idx, b.Index)
+				}
+			}
+			fmt.Fprintf(os.Stderr, "Term recursion on %s in %s path=%v havoc=%v\n", v.String(), v.Parent(), idx, ps != nil && len(ps.Havoc) > 0)
+		}
+		return "?deep"
+	}
 	if ps != nil {
 		v = ps.Resolve(v)
 	}
@@ -201,13 +218,13 @@ func (t *Termer) Term(v ssa.Value, ps *pathState) string {
 			}
 		}
 		if ord > 1 {
-			return fmt.Sprintf("call:%s@%d", name, ord)
+			return fmt.Sprintf("call:%s@%d", name, ord) + ps.genOf(x)
 		}
-		return "call:" + name
+		return "call:" + name + ps.genOf(x)
 	case *ssa.MakeSlice:
 		return "make[" + t.Term(x.Len, ps) + "]"
 	case *ssa.TypeAssert:
-		return "assert(" + t.Term(x.X, ps) + "," + types.TypeString(x.AssertedType, shortQual) + ")"
+		return "assert(" + t.Term(x.X, ps) + "," + types.TypeString(x.AssertedType, shortQual) + ")" + ps.genOf(x)
 	case *ssa.BinOp:
 		if ps != nil {
 			if n, ok := evalInt(x, ps); ok {
@@ -225,9 +242,9 @@ func (t *Termer) Term(v ssa.Value, ps *pathState) string {
 		}
 		return t.Term(x.X, ps) + "[" + lo + ":" + hi + "]"
 	case *ssa.Phi:
-		return "phi:" + x.Name() + "@" + x.Parent().Name()
+		return "phi:" + x.Name() + "@" + x.Parent().Name() + ps.genOf(x)
 	}
-	return fmt.Sprintf("?%s", v.Name())
+	return fmt.Sprintf("?%s", v.Name()) + ps.genOf(v)
 }
 
 func shortQual(p *types.Package) string { return p.Name() }
@@ -441,6 +458,16 @@ func EnumLits(start *ssa.BasicBlock, idx int, o TabOpts) ([]*LPath, bool) {
 			return
 		}
 		ps.Path = append(ps.Path, b)
+		if ps.Visits == nil {
+			ps.Visits = map[*ssa.BasicBlock]int{}
+		}
+		ps.Visits[b]++
+		if ps.Gen > 0 {
+			if ps.BlockGen == nil {
+				ps.BlockGen = map[*ssa.BasicBlock]int{}
+			}
+			ps.BlockGen[b] = ps.Gen
+		}
 		for i := idx; i < len(b.Instrs); i++ {
 			in := b.Instrs[i]
 			if o.Stop != nil && o.Stop(in, ps) {
@@ -472,12 +499,7 @@ func EnumLits(start *ssa.BasicBlock, idx int, o TabOpts) ([]*LPath, bool) {
 			cond = iff.Cond
 		}
 		for k, s := range b.Succs {
-			visits := 0
-			for _, pb := range ps.Path {
-				if pb == s {
-					visits++
-				}
-			}
+			visits := ps.Visits[s]
 			if visits >= 2 {
 				continue
 			}
@@ -495,6 +517,7 @@ func EnumLits(start *ssa.BasicBlock, idx int, o TabOpts) ([]*LPath, bool) {
 					}
 				} else if l, ok := o.Termer.litOf(cond, outcome, ps); ok {
 					l = o.Termer.fixNilTypeLit(l, cond, ps)
+					l.PS = ps
 					nl := append(append([]Lit(nil), fr.lits...), l)
 					if !satisfiable(append(append([]Lit(nil), nl...), o.Assume...)) {
 						continue
@@ -505,13 +528,21 @@ func EnumLits(start *ssa.BasicBlock, idx int, o TabOpts) ([]*LPath, bool) {
 				}
 			}
 			nps := ps.clone()
-			if visits == 1 {
+			if visits == 1 || s.Dominates(b) {
 				// second arrival at a loop header through a back-edge: its phis (and those of blocks inside the
 				// loop that are revisited) stand for an arbitrary later iteration
 				if nps.Havoc == nil {
 					nps.Havoc = map[*ssa.BasicBlock]bool{}
 				}
 				nps.Havoc[s] = true
+				nps.Gen++
+				// a new iteration of s's loop: inner loops start over
+				for ib := range loopBody(s) {
+					if ib != s {
+						delete(nps.Visits, ib)
+						delete(nps.Havoc, ib)
+					}
+				}
 			}
 			walk(s, 0, nps, nfr)
 		}
@@ -567,7 +598,12 @@ func sortedStrings(m map[string]bool) []string {
 }
 
 // evalInt evaluates an integer expression of constants along the path (phis and cells resolved by the path).
-func evalInt(v ssa.Value, ps *pathState) (int64, bool) {
+func evalInt(v ssa.Value, ps *pathState) (int64, bool) { return evalIntD(v, ps, 0) }
+
+func evalIntD(v ssa.Value, ps *pathState, rec int) (int64, bool) {
+	if rec > 24 {
+		return 0, false
+	}
 	for depth := 0; depth < 8; depth++ {
 		v = ps.Resolve(v)
 		if n, ok := ps.Vals[v]; ok {
@@ -583,8 +619,8 @@ func evalInt(v ssa.Value, ps *pathState) (int64, bool) {
 			v = x.X
 			continue
 		case *ssa.BinOp:
-			a, ok1 := evalInt(x.X, ps)
-			b, ok2 := evalInt(x.Y, ps)
+			a, ok1 := evalIntD(x.X, ps, rec+1)
+			b, ok2 := evalIntD(x.Y, ps, rec+1)
 			if !ok1 || !ok2 {
 				return 0, false
 			}
